@@ -366,7 +366,15 @@ def run(ctx: core.Ctx):
     names = sorted(set(docs.NAMES + ["", "zzz", "Linear", "ALL"]) | set(file_names))      # every name for which ANY table file exists is probed
     ctx.extra["connectivity_names_probed"] = names
     res = core.pmap(entry_job, [(n, nm) for n in range(1, 9) for nm in names], chunks=1)
-    res += core.pmap(dominance_job, docs.ADVERTISED, chunks=1)
+    dom = core.pmap(dominance_job, docs.ADVERTISED, chunks=1)
+    famd = ctx.family("C08.gate.dominates_lookup", GROUND, "native (call monitor)", "every table-reading entry point passes the gate function with its own (n, connectivity) before its first lookup")
+    famd.exhaustive = True
+    for r in dom:
+        for famname, ok, key, what, rp in r:
+            # a different way of validating the configuration is not a violation by itself (the grid above decides); it only withdraws this structural argument
+            ctx.record(famd, PROVED if ok else UNKNOWN, rp if famd.total < 2 else None)
+            if not ok:
+                ctx.undecide(famd, what)
     rnd = random.Random(ctx.seed + 8)
     jobs = []
     p2 = all_pairs(2)
